@@ -75,6 +75,10 @@ def gen_history(seed, idx, method, info, tier, search=False):
             L = 1
     else:
         T, n, L, ns = int(rng.integers(30, 61)), int(rng.integers(2, 4)), int(rng.integers(1, 3)), int(rng.integers(20, 51))
+    if method in ("lasso", "information_lasso") and not slow and rng.random() < 0.4:
+        # short, wide record: T - max_lag <= n * max_lag + 1 sends the LASSO selectors down their plain-Lasso fallback
+        n, L = int(rng.integers(3, 5)), 2
+        T = int(rng.integers(L + 3, n * L + L + 2))
     if info == "poisson":
         kind = "counts"
     else:
